@@ -48,7 +48,12 @@ def run_one(name, tier, extra):
             if m and os.path.exists(m.group(1)):
                 try:
                     j = json.load(open(m.group(1)))
-                    what = (j.get('obligation') or j.get('finding_class') or j.get('what') or '')[:160]
+                    w = j.get('what')
+                    if isinstance(w, list):
+                        w = str(w[0]) if w else ''
+                    cls = j.get('finding_class')
+                    # an unlisted finding: say what was wrong with the input rather than just "unlisted"
+                    what = str(j.get('obligation') or (w if cls in (None, 'unlisted') and w else cls) or w or '')[:160].replace('\n', ' ')
                 except Exception:
                     pass
             res['checks'][p] = {'rc': r.returncode, 'violations': len(viol),
